@@ -19,7 +19,7 @@ def loop_inv(k, header, kw):
 
 UNIT = Unit(
     name="U-DYNVIS",
-    properties=["C17", "C04"],
+    properties=["C17", "C04", "C03"],
     # C04 only claims the clause whose violation crashes the backend (the table type of a coerced expression)
     clause_scope={"C04": {"only": ["table_type_ok("]}},
     rules=["attrs", "fmtmsg", ("strip", "tast::"), ("strip", "common_defs::"), ("strip", "hir::"), ("strip", "super::util::"), "iter_any"],
